@@ -40,6 +40,7 @@ def run(ctx) -> None:
     ctx.section("atomic", _atomic, ctx)
     ctx.section("rename", _rename, ctx)
     ctx.section("keys", _keys, ctx)
+    ctx.section("one-cell", _one_cell, ctx)
     ctx.section("untouched", _untouched, ctx)
     ctx.section("table", _table, ctx)
     ctx.section("promote-order", _promote_order, ctx)
@@ -349,7 +350,7 @@ def _keys(ctx) -> None:
             names = {x[1] for x in subterms(c[2][1]) if x[0] == "name"}
             if names & {"Iterator", "Iterable", "Generator"}:
                 return True
-            return False if names and names <= {"str", "bytes", "bytearray", "Vector", "list", "tuple", "Mapping", "dict", "int", "float", "range",
+            return False if names and names <= {"str", "bytes", "bytearray", "complex", "Enum", "Vector", "list", "tuple", "Mapping", "dict", "int", "float", "range",
                                                 "Sized", "Sequence", "Collection", "Table"} else None
         if c[0] == "un" and c[1] == "Not":
             r = it_truth(c[2])
@@ -648,7 +649,15 @@ def _table(ctx) -> None:
                 if len(L) == 1 and is_value(it.loops[L[0]].iter):
                     x = ("elem", it.loops[L[0]].iter, L[0])
                     from ..sites2 import leaves as _lv
-                    return all(v == x or v == ("call", ("attr", x, "copy"), (), ()) for v in _lv(evs[0].value))
+
+                    def item_ok(v):
+                        """the item itself, its copy, or - a one-shot iterator among the items - the list of what it yields"""
+                        if v == x or v == ("call", ("attr", x, "copy"), (), ()):
+                            return True
+                        if v[0] == "call" and v[1] in (("name", "list"), ("name", "tuple")) and v[2] == (x,) and not v[3]:
+                            return True
+                        return v[0] == "obj" and it.objs[v[1]].kind == "list" and isinstance(it.objs[v[1]].node, ast.Call) and it.objs[v[1]].init == (x,)
+                    return all(item_ok(v) for v in _lv(evs[0].value))
         return False
     # unsupported values raise
     fin = [e for e in it.events if e.kind == "raise" and e.term[0] == "call" and e.term[1] == ("name", "SerifTypeError")
@@ -726,6 +735,12 @@ def _table(ctx) -> None:
                         if v == x and any((not pol) and c[0] == "call" and c[1] == ("name", "isinstance") and c[2][0] == x
                                           and any(y == ("name", "Vector") for y in subterms(c[2][1])) for c, pol in cs):
                             continue
+                        # a one-shot iterator among the items, materialised (it is not a vector)
+                        mat = (v[0] == "call" and v[1] in (("name", "list"), ("name", "tuple")) and v[2] == (x,)) or \
+                              (v[0] == "obj" and it.objs[v[1]].kind == "list" and isinstance(it.objs[v[1]].node, ast.Call) and it.objs[v[1]].init == (x,))
+                        if mat and any(pol and c[0] == "call" and c[1] == ("name", "isinstance") and c[2][0] == x
+                                       and any(y == ("name", "Iterator") for y in subterms(c[2][1])) for c, pol in cs):
+                            continue
                         copies = False
                     if kv is not None and kv != "snap":
                         return "list-snap" if copies else "list-shared"
@@ -735,7 +750,8 @@ def _table(ctx) -> None:
              "tuple": {"tuple", "Iterable", "Sequence", "Sized", "Collection"}, "Iterator": {"Iterator", "Iterable"},
              "deque": {"deque", "Iterable", "Sequence", "MutableSequence", "Sized", "Collection", "Reversible"},
              "Mapping": {"Mapping", "dict", "Iterable", "Sized", "Collection", "Container"},
-             "IntFlag": {"int", "Iterable", "Hashable", "Flag", "IntFlag"}}       # (an int whose class is iterable: enum.Flag since 3.11)
+             "IntFlag": {"int", "Iterable", "Hashable", "Flag", "IntFlag", "Enum"},
+             "Flag": {"Iterable", "Hashable", "Flag", "Enum"}}       # (an int whose class is iterable: enum.Flag since 3.11)
 
     # the list of target column positions (an object of __setitem__ handed to the writer): its length can be assumed per question
     NT = [None]
@@ -768,8 +784,8 @@ def _table(ctx) -> None:
             names = [x[1] for x in items if x[0] == "name"]
             if any(n in mine for n in names):
                 return True
-            known = {"Vector", "list", "tuple", "Iterator", "Iterable", "Sequence", "str", "bytes", "bytearray", "int", "range", "dict", "Mapping",
-                     "float", "complex", "bool", "Sized", "Collection", "set", "frozenset"}
+            known = {"Vector", "list", "tuple", "Iterator", "Iterable", "Sequence", "str", "bytes", "bytearray", "complex", "Enum", "int", "range", "dict", "Mapping",
+                     "float", "complex", "bool", "Sized", "Collection", "set", "frozenset", "Enum", "Flag", "IntFlag"}
             if kv != "snap" and kv != ("raw", "Vector"):
                 known |= {"Table", "Row"}
             if len(names) == len(items) and all(n in known for n in names):
@@ -816,6 +832,36 @@ def _table(ctx) -> None:
            message=f"Table.__setitem__ hands a value to a single target column only when it is a list or tuple (or one of a few listed "
                    f"types): a {' / '.join(refused_kinds)} of values - `t[:, 'a'] = Vector([...])`, `t[:, 'a'] = deque([...])` - is refused as "
                    f"an unsupported value type although the column's own assignment accepts it")
+    # the per-column items of a list / tuple value are read TWICE when several columns are written (rehearsal on scratch copies, then
+    # the real pass): an item that is a one-shot iterator must be materialised with the snapshot, or the rehearsal uses it up and the
+    # real pass fails half way - after the earlier columns were written
+    from ..sites2 import leaves_with_conds as _lwc2
+    raw_iter_items = []
+    n_snap = 0
+    for o_id, o in it.objs.items():
+        if o.kind != "listcomp":
+            continue
+        evs_ = [e for e in it.events if e.kind == "elem" and e.term == ("obj", o_id)]
+        if len(evs_) != 1 or not evs_[0].loops:
+            continue
+        L_ = [x for x in evs_[0].loops if x not in o.loops]
+        if len(L_) != 1 or not is_value(it.loops[L_[0]].iter):
+            continue
+        x_ = ("elem", it.loops[L_[0]].iter, L_[0])
+        if not any(v == ("call", ("attr", x_, "copy"), (), ()) for v, _ in _lwc2(evs_[0].value)):
+            continue                                   # (not the snapshot comprehension)
+        n_snap += 1
+        for v, cs in _lwc2(evs_[0].value):
+            if v == x_ and not any((not pol) and c[0] == "call" and c[1] == ("name", "isinstance") and c[2][0] == x_
+                                   and any(y == ("name", "Iterator") for y in subterms(c[2][1])) for c, pol in cs):
+                raw_iter_items.append(evs_[0])
+    if rehearsal is not None:
+        ctx.ob("f.table-delegation", f, "iterator-items-materialised", n_snap >= 1 and not raw_iter_items,
+               "a one-shot iterator among the items of a list / tuple value is materialised with the snapshot (the value is read twice)",
+               (raw_iter_items[0].node if raw_iter_items else f.node),
+               message="Table.__setitem__ rehearses a several-column assignment and then runs it with the SAME value: a one-shot iterator among "
+                       "the items of a list / tuple value is used up by the rehearsal - t[:, ['a', 'b']] = [[10, 20, 30], iter([40, 50, 60])] "
+                       "raises after column a was written (a failed assignment must change nothing)")
     # a mapping is refused in every form (iterating it yields its KEYS: t[0] = {'b': 'B', 'a': 'A'} made the row ('b', 'a')); a number
     # is one cell even where its class is iterable (a composite IntFlag member must not be unrolled into a row); and with several
     # target columns any sequence of columns - a deque, dict.values() - is written column by column like a list of them
@@ -900,11 +946,29 @@ def _table(ctx) -> None:
            "unsupported value types raise SerifTypeError", f.node, message="Table.__setitem__ does not end by raising for unsupported values")
 
 
+def _one_cell(ctx) -> None:
+    """Sibling agreement of every `one cell or a sequence of cells?` test (serifscan/onecell.py): each exempts text, numbers and enum
+    members - since Python 3.11 an enum.Flag member iterates over its bits, so an unexempted test adds / stores the bits pairwise."""
+    from ..onecell import REQUIRED, sites
+    ss = sites(ctx.prog)
+    bad = [s_ for s_ in ss if not s_[3]]
+    f = ctx.prog.func("vector.Vector._elementwise_operation")
+    ctx.ob("c.key-forms", f, "one-cell-exemptions", len(ss) >= 3 and not bad,
+           f"{len(ss)} scalar-or-sequence tests, each exempting {sorted(REQUIRED)}", f.node,
+           message="; ".join(f"{q} (line {ln}) exempts only {sorted(names)} from its Iterable test: a number or enum member whose class is "
+                             f"iterable (enum.IntFlag: Perm.R | Perm.W) is taken for a sequence of its bits there" for q, ln, names, _ok in bad[:3]))
+
+
 _V, _T = "vector", "table"
 MUTANTS = [
+    dict(id="flag-value-stored-bit-by-bit", module="vector", old="			and not isinstance(value, (str, bytes, bytearray, int, float, complex, Enum))\n		)",
+         new="			and not isinstance(value, (str, bytes, bytearray))\n		)", rules=["c.key-forms"], desc="reverts fix 46d03df in Vector.__setitem__"),
+    dict(id="iterator-items-used-up-by-the-rehearsal", module="table",
+         old="			value = [v.copy() if isinstance(v, Vector) else (list(v) if isinstance(v, Iterator) else v) for v in value]",
+         new="			value = [v.copy() if isinstance(v, Vector) else v for v in value]", rules=["f.table-delegation"], desc="reverts fix 49afb45"),
     dict(id="row-from-a-mapping", module="table", old="		if isinstance(value, Mapping):\n			raise SerifTypeError(f\"Unsupported assignment value type: {type(value)}\")\n\n", new="",
          rules=["f.table-delegation"], desc="reverts fix d53abfc"),
-    dict(id="intflag-cell-unrolled", module="table", old="isinstance(value, (str, bytes, bytearray, int, float, complex)):\n			for col_idx in target_indices:",
+    dict(id="intflag-cell-unrolled", module="table", old="isinstance(value, (str, bytes, bytearray, int, float, complex, Enum)):\n			for col_idx in target_indices:",
          new="isinstance(value, (str, bytes, bytearray)):\n			for col_idx in target_indices:", rules=["f.table-delegation"], desc="reverts fix 02e6bcc"),
     dict(id="deque-of-columns-refused", module="table", old="		elif len(target_indices) > 1 and isinstance(value, Iterable) \\\n", new="		elif False and isinstance(value, Iterable) \\\n",
          rules=["f.table-delegation"], desc="reverts fix e579789"),
@@ -917,8 +981,8 @@ MUTANTS = [
          old="		if (isinstance(key, list) or (isinstance(key, Vector) and key.schema() is None)) and len(key) == 0:",
          new="		if isinstance(key, Vector) and key.schema() is None and len(key) == 0:", rules=["c.key-forms"], desc="reverts fix a2b9f72 (setitem)"),
     dict(id="iterator-value-not-snapshotted", module="table",
-         old="		if isinstance(value, Iterator):\n			value = list(value)\n		elif len(target_indices) > 1 and isinstance(value, Iterable) \\\n				and not isinstance(value, (Vector, list, tuple, str, bytes, bytearray, Mapping, int, float, complex)):\n			# (several target columns: any other sequence - a deque, dict.values() - is the list of\n			# its items, one per column, like a list, a tuple or a generator of them)\n			value = list(value)\n		if isinstance(value, Vector):\n			value = value.copy()\n		elif isinstance(value, (list, tuple)):\n			value = [v.copy() if isinstance(v, Vector) else v for v in value]\n",
-         new="		if isinstance(value, Vector):\n			value = value.copy()\n		elif isinstance(value, (list, tuple)):\n			value = [v.copy() if isinstance(v, Vector) else v for v in value]\n		if isinstance(value, Iterator):\n			value = list(value)\n		elif len(target_indices) > 1 and isinstance(value, Iterable) \\\n				and not isinstance(value, (Vector, list, tuple, str, bytes, bytearray, Mapping, int, float, complex)):\n			# (several target columns: any other sequence - a deque, dict.values() - is the list of\n			# its items, one per column, like a list, a tuple or a generator of them)\n			value = list(value)\n",
+         old="		if isinstance(value, Iterator):\n			value = list(value)\n		elif len(target_indices) > 1 and isinstance(value, Iterable) \\\n				and not isinstance(value, (Vector, list, tuple, str, bytes, bytearray, Mapping, int, float, complex, Enum)):\n			# (several target columns: any other sequence - a deque, dict.values() - is the list of\n			# its items, one per column, like a list, a tuple or a generator of them)\n			value = list(value)\n		if isinstance(value, Vector):\n			value = value.copy()\n		elif isinstance(value, (list, tuple)):\n			# (a one-shot iterator among the items is materialised too: the rehearsal below would use it up)\n			value = [v.copy() if isinstance(v, Vector) else (list(v) if isinstance(v, Iterator) else v) for v in value]\n",
+         new="		if isinstance(value, Vector):\n			value = value.copy()\n		elif isinstance(value, (list, tuple)):\n			# (a one-shot iterator among the items is materialised too: the rehearsal below would use it up)\n			value = [v.copy() if isinstance(v, Vector) else (list(v) if isinstance(v, Iterator) else v) for v in value]\n		if isinstance(value, Iterator):\n			value = list(value)\n		elif len(target_indices) > 1 and isinstance(value, Iterable) \\\n				and not isinstance(value, (Vector, list, tuple, str, bytes, bytearray, Mapping, int, float, complex, Enum)):\n			# (several target columns: any other sequence - a deque, dict.values() - is the list of\n			# its items, one per column, like a list, a tuple or a generator of them)\n			value = list(value)\n",
          rules=["f.table-delegation"], desc="reverts fix 79c529c"),
     dict(id="setitem-no-untyped-empty-key", module="vector",
          old="		if (isinstance(key, list) or (isinstance(key, Vector) and key.schema() is None)) and len(key) == 0:\n			key = ()\n",
@@ -934,7 +998,7 @@ MUTANTS = [
          new="				scratch._write_columns(list(range(len(target_indices))), row_spec, None)", rules=["f.table-delegation"],
          desc="the rehearsal does not try the value that is written"),
     dict(id="table-setitem-no-snapshot", module="table",
-         old="		if isinstance(value, Vector):\n			value = value.copy()\n		elif isinstance(value, (list, tuple)):\n			value = [v.copy() if isinstance(v, Vector) else v for v in value]\n",
+         old="		if isinstance(value, Vector):\n			value = value.copy()\n		elif isinstance(value, (list, tuple)):\n			# (a one-shot iterator among the items is materialised too: the rehearsal below would use it up)\n			value = [v.copy() if isinstance(v, Vector) else (list(v) if isinstance(v, Iterator) else v) for v in value]\n",
          new="", rules=["f.table-delegation"],
          desc="reverts fix 2bfa5e1: t[:, ['a', 'b']] = [t.b, t.a] sets both columns to b"),
     dict(id="column-assignment-refuses-deques", module="table", old="		if len(target_indices) == 1 and not isinstance(value, (list, tuple, Mapping)):",
